@@ -8,7 +8,12 @@ use std::{
 
 use ntp_proto::{KeySet, NtpClock, Server, ServerReason, ServerResponse, ServerStatHandler};
 use serde::{Deserialize, Deserializer, Serialize, Serializer};
+#[cfg(not(pendulum_project_ntpd_rs_verif))]
 use timestamped_socket::socket::{RecvResult, open_ip};
+#[cfg(pendulum_project_ntpd_rs_verif)]
+use super::verif::server::open_ip;
+#[cfg(pendulum_project_ntpd_rs_verif)]
+use timestamped_socket::socket::RecvResult;
 use tokio::task::JoinHandle;
 use tracing::{Instrument, Span, debug, instrument, warn};
 
